@@ -1761,8 +1761,22 @@ class Engine:
         raise Limitation(f"method {name} of {kind_of(recv)}")
 
     def str_method(self, recv, name, args, kwargs, fr, path):
-        if name == "join" and recv == "" and len(args) == 1 and isinstance(args[0], AbsSet) and args[0].joined is not None:
-            return args[0].joined
+        if name == "join" and recv == "" and len(args) == 1 and isinstance(args[0], AbsSet):
+            st = args[0]
+            if st.joined is None:
+                if not st.escaped:
+                    raise Limitation("''.join() of class items that are not in their escaped (printable) form")
+                # R7 (printing): escaped items written one after the other between brackets list exactly what they denote
+                j = SStr([Atom(self.fresh("joined", StrS), "opq", {"key": f"joined{self.fresh_id()}"})])
+                MEMTXT = self.spec_builtins["TV"].__globals__["MEMTXT"]
+                x = z3.Int("x!jn")
+                for opening in ("[", "[^"):
+                    t = str_term(mkstr(opening, j, "]"))
+                    path.assume(z3.ForAll([x], MEMTXT(t, x) == st.mem(x), patterns=[MEMTXT(t, x)]))
+                st.joined = j
+            return st.joined
+        if name == "join" and recv == "" and len(args) == 1 and is_strv(args[0]):
+            return args[0]              # ''.join(s) of a string is the string
         if name == "join" and isinstance(recv, str) and len(args) == 1 and isinstance(args[0], (tuple, list)):
             parts = []
             for i, x in enumerate(args[0]):
@@ -2146,8 +2160,9 @@ class AbsSet:
     known only through the set of code points it denotes (`mem`: x -> Bool).  kind: 'range', 'char', 'mix' (ranges and
     characters together) or 'esc' (the items re-escaped for printing; `joined` is then the text of ''.join(...))"""
 
-    def __init__(self, kind, mem, joined=None):
+    def __init__(self, kind, mem, joined=None, escaped=None):
         self.kind, self.mem, self.joined = kind, mem, joined
+        self.escaped = (kind == "esc") if escaped is None else escaped      # items written as they appear between brackets
 
     def __repr__(self):
         return f"<AbsSet {self.kind}>"
@@ -2199,7 +2214,7 @@ class AbsSet:
         norm = lambda k: "range" if k == "pair" else k
         kind = norm(self.kind) if norm(self.kind) == norm(other.kind) else "mix"
         a, b = self.mem, other.mem
-        return AbsSet(kind, lambda x, a=a, b=b: z3.Or(a(x), b(x)))
+        return AbsSet(kind, lambda x, a=a, b=b: z3.Or(a(x), b(x)), escaped=self.escaped and other.escaped)
 
     def m_difference(self, eng, path, fr, other):
         # exact on the denotation only for sets of single (unescaped) characters: equal strings <=> equal code points
